@@ -56,6 +56,12 @@ def _extra(spec):
         def boom(self, event):
             if event.new_value == "BOOM":
                 raise RuntimeError("injected handler exception")
+            if event.new_value == "CANCEL":
+                # the handler looks at the outcome of a job that was cancelled: asyncio.CancelledError, not an Exception subclass
+                import asyncio
+                fut = asyncio.get_running_loop().create_future()
+                fut.cancel()
+                fut.result()
 
         return {"boom": boom}
     return extra
@@ -95,6 +101,7 @@ def generate(seed, tier, index):
     net = {"latency": rng.choice(["zero", "lan", "slow", "bursty"]), "frag": rng.choice(["whole", "fixed:7", "random", "coalesce"]),
            "hwm": rng.choice([0, 64, 65536])}
     return {"steps": steps, "nby": nby, "tty": tty, "libclient": libclient, "net": net, "seed": rng.randrange(1 << 30),
+            "exc_kind": rng.choice(["runtime", "runtime", "cancelled"]),
             "pos_class": "first" if pos == 0 else ("last" if pos == n else "mid"), "pool": rng.randint(2, 4)}
 
 
@@ -198,7 +205,9 @@ def execute(scen):
             apply_step(stack, {"op": "d_assign", "dev": "D", "vec": "IMG", "el": "B0",
                                "value": {"blob_hex": (b"blob%d" % serial[0]).hex(), "format": ".b"}})
 
-        BOOM = '<newTextVector device="D" name="TXT"><oneText name="T0">BOOM</oneText></newTextVector>'
+        BOOM = '<newTextVector device="D" name="TXT"><oneText name="T0">%s</oneText></newTextVector>' % ("CANCEL" if scen.get("exc_kind") == "cancelled" else "BOOM")
+        if scen.get("exc_kind") == "cancelled":
+            probes["handler_raises_CancelledError"] = 1
         NEXT = '<newTextVector device="D" name="TXT"><oneText name="T1">pipelined</oneText></newTextVector>'
 
         def boom_text(cut):
